@@ -32,7 +32,28 @@ func (p Persist) Store(ctx context.Context, name string, bytes []byte) error {
 	if !os.IsNotExist(err) {
 		return err
 	}
-	return os.WriteFile(filepath.Join(p.basepath, name), bytes, 0644)
+	// Write to a temporary file and rename it into place, so that a
+	// crash or I/O error never leaves a partial node under its final name.
+	f, err := os.CreateTemp(p.basepath, ".tmp-"+name+"-*")
+	if err != nil {
+		return err
+	}
+	tmp := f.Name()
+	_, err = f.Write(bytes)
+	if err == nil {
+		err = f.Sync()
+	}
+	if cerr := f.Close(); err == nil {
+		err = cerr
+	}
+	if err == nil {
+		err = os.Rename(tmp, path)
+	}
+	if err != nil {
+		os.Remove(tmp)
+		return err
+	}
+	return nil
 }
 
 // NewPersistForPath returns a Persist that loads and stores nodes as
